@@ -13,8 +13,8 @@ import (
 // Config is the part of the protocol configuration the acceptance predicate depends on.
 type Config struct {
 	MaxOperationSize, MaxOperationHashLength, MaxDeltaSize, NonceSize uint64
-	MultihashAlgorithms                                                []uint64
-	SignatureAlgorithms, KeyAlgorithms, Patches                        []string
+	MultihashAlgorithms                                               []uint64
+	SignatureAlgorithms, KeyAlgorithms, Patches                       []string
 }
 
 // Accepted describes what the parser must return for an acceptable request.
